@@ -28,7 +28,7 @@ var c05PoolT = append(append([]string{}, c05PoolQ...), "0.js", "~.js", "lib/.kee
 
 var c05PatQ = []string{
 	"*.js", "**/*.js", "src/*", "*/*", "**", "src/**", "**/sub/*", "*.{js,ts}", "s*/*.js", "**/*", "*", "lib/*.ts",
-	"**/g.*", "*.ts", "src/*.js", "**/*.ts", "?.j*", "[a-z].j*", "src/**/*.js", "**/{c,g}.js", "src/*/g.js",
+	"**/g.*", "*.ts", "src/*.js", "**/*.ts", "?.j*", "[a-z].j*", "src/**/*.js", "**/{c,g}.js", "src/*/g.js", ".*", ".git/*", ".*.js", ".git/**",
 }
 var c05PatT = append(append([]string{}, c05PatQ...), "**/.*", "src/.*", "lib/*", "**/src/*", "*/*/*", "zz.*", "**/*.{js,ts}", "*/sub/**", "[!a]*.js")
 
